@@ -45,7 +45,8 @@ CONSTANTS DocIds,        \* documents of DocTab used by this configuration
           MaxK,          \* handler exception at the k-th startElement, k in 1..MaxK (0 = none)
           Feats,         \* features SetFeature may change: subset of {"val","ns","cache","use"}
           AsCoded,       \* FALSE = specification; TRUE = stale readers survive an abandoned progressive run (pinned code)
-          Forget         \* reset lines omitted from ScanReset (specification mutants); {} in every real configuration
+          Forget,        \* reset lines omitted from ScanReset / "useguard" (specification mutants); {} in every real configuration
+          Extra          \* TRUE: all operations; FALSE: only parse / setFeature / loadGrammar (directed configurations)
 
 Tk(t, n, id, ref) == [t |-> t, n |-> n, id |-> id, ref |-> ref]
 SE(n, id, ref) == Tk("se", n, id, ref)
@@ -75,6 +76,22 @@ DocTab(d) ==
     [] d = 8 -> Doc(FALSE, "ext", "A", Body1)
     [] d = 9 -> Doc(FALSE, "ext", "B", <<SE("r", "", ""), SE("a", "x", ""), ER("f"), EE, EE>>)
     [] d = 10 -> Doc(FALSE, "ext", "A", <<SE("r", "", ""), SE("a", "", "q"), EE, SE("u", "", ""), EE, EE>>)
+    [] OTHER -> Doc(FALSE, "none", "none", <<SE("a", "", ""), EE>>)                              \* 11, 12: schema documents, see below
+
+\* Schema documents.  Both name schema SB for namespace urn:x (key "X") in xsi:schemaLocation; loadGrammar("X") loads the DIFFERENT schema
+\* SA for the same key.  11 = <a/> is valid under both (the defaulted attribute differs: visible in the dump), 12 = <b>42</b> is valid
+\* under SB only.  Which grammar a parse uses is GrammarResolver::getGrammar's lookup order:
+\*     bucket  ->  grammars referenced from the pool, ONLY IF useCachedGrammarInParse  ->  pool, ONLY IF useCachedGrammarInParse
+\* (the bucket is emptied by scanReset, so it never answers for "X" at the start of a parse).  "" = no cached grammar: SB is read inline.
+SchemaDocs == {11, 12}
+Lookup(key, c, st) ==
+  IF key \in st.bucket THEN "bucket"
+  ELSE IF (c.use \/ "useguard" \in Forget) /\ key \in st.fromPool THEN "SA"
+  ELSE IF c.use /\ key \in st.pool THEN "SA"
+  ELSE ""
+SchemaOut(d, c, vis) == [how |-> "ok", nse |-> 1, verr |-> (c.val # 0 /\ d = 12 /\ vis = "SA")]
+\* declaratively: the cached grammar is visible iff the feature is on and the pool holds the key - whatever was referenced earlier
+Visible(key, c, p) == IF c.use /\ key \in p THEN "SA" ELSE ""
 
 VARIABLES cfg, tr, seqId, run, issued, bucket, fromPool, pool, locked, curDoc, curAdopted, owned, adopted, freed, nextDoc,
           last, nops
@@ -82,12 +99,12 @@ stores == <<bucket, fromPool, pool, locked>>
 docpool == <<curDoc, curAdopted, owned, adopted, freed, nextDoc>>
 vars == <<cfg, tr, seqId, run, issued, stores, docpool, last, nops>>
 
-InitCfg == [val |-> 0, ns |-> TRUE, cache |-> FALSE, use |-> FALSE]
+InitCfg == [val |-> 0, ns |-> TRUE, cache |-> FALSE, use |-> FALSE, schema |-> FALSE]
 InitTr(c) == [depth |-> 0, ids |-> {}, refs |-> {}, sa |-> FALSE, noDTD |-> TRUE, validate |-> (c.val = 1), g |-> "none", gext |-> FALSE,
               undecl |-> {}, exp |-> 0, rd |-> 0, errs |-> 0]
 NoRun == [active |-> FALSE, tok |-> 0, doc |-> 0, rest |-> <<>>, out |-> [how |-> "ok", verr |-> FALSE, nse |-> 0], cfg |-> InitCfg]
 Out0 == [how |-> "ok", verr |-> FALSE, nse |-> 0]
-NoLast == [hzdg |-> FALSE, op |-> <<"init">>, out |-> Out0, full |-> FALSE, ok |-> TRUE, rej |-> FALSE, done |-> FALSE, hz |-> "", doc |-> 0, k |-> 0, cfg |-> InitCfg]
+NoLast == [vis |-> "", hzdg |-> FALSE, op |-> <<"init">>, out |-> Out0, full |-> FALSE, ok |-> TRUE, rej |-> FALSE, done |-> FALSE, hz |-> "", doc |-> 0, k |-> 0, cfg |-> InitCfg]
 
 \* --- scanReset, line by line (IGXMLScanner2.cpp: scanReset).  The reader stack is NOT touched by scanReset: it is the
 \* ReaderMgrResetType janitor at the end of scanDocument / scanNext that empties it.
@@ -222,16 +239,21 @@ StaleReaders == AsCoded /\ run.active
 Parse(d, k) ==
   LET t0 == ScanReset(tr, cfg)
       st0 == ResetStores(cfg, St, locked)
-      s == ScanSeq(Prolog(t0, cfg, d), DocTab(d).body, k)
-      st1 == IF s.stop /\ s.out.nse = 0 /\ DocTab(d).dtd = "int" /\ cfg.cache THEN st0 ELSE DoctypeStores(cfg, d, st0, locked)
+      xs == d \in SchemaDocs
+      vis == IF xs THEN Lookup("X", cfg, st0) ELSE ""
+      s == IF xs THEN [tr |-> [t0 EXCEPT !.rd = 1, !.validate = (cfg.val # 0)], out |-> SchemaOut(d, cfg, vis), cb |-> 1, stop |-> FALSE]
+           ELSE ScanSeq(Prolog(t0, cfg, d), DocTab(d).body, k)
+      st1 == IF xs THEN (IF vis = "SA" THEN [st0 EXCEPT !.fromPool = @ \cup {"X"}] ELSE st0)
+             ELSE IF s.stop /\ s.out.nse = 0 /\ DocTab(d).dtd = "int" /\ cfg.cache THEN st0 ELSE DoctypeStores(cfg, d, st0, locked)
       out == IF StaleReaders THEN [how |-> "fatal", verr |-> FALSE, nse |-> 0] ELSE s.out
       hz == IF run.active THEN "abandoned" ELSE IF LockedScratchHazard(cfg, d, st0, locked) THEN "lockedScratch" ELSE ""
-  IN /\ seqId' = seqId + 1                                        \* fSequenceId++ : invalidates every earlier token
+  IN /\ (xs => cfg.schema /\ cfg.ns /\ ~cfg.cache /\ k = 0)       \* schema documents: schema processing on, no caching from parse (not modelled)
+     /\ seqId' = seqId + 1                                        \* fSequenceId++ : invalidates every earlier token
      /\ tr' = [s.tr EXCEPT !.rd = 0]                             \* ReaderMgrResetType janitor: ReaderMgr::reset on every exit path
      /\ run' = NoRun
      /\ SetStores(st1)
      /\ NewDocument
-     /\ last' = [hzdg |-> DGScratchHazard(cfg, d, pool), op |-> <<"parse", d, k>>, out |-> out, full |-> TRUE, ok |-> TRUE, rej |-> FALSE, done |-> TRUE, hz |-> hz, doc |-> d, k |-> k, cfg |-> cfg]
+     /\ last' = [vis |-> vis, hzdg |-> DGScratchHazard(cfg, d, pool), op |-> <<"parse", d, k>>, out |-> out, full |-> TRUE, ok |-> TRUE, rej |-> FALSE, done |-> TRUE, hz |-> hz, doc |-> d, k |-> k, cfg |-> cfg]
      /\ UNCHANGED <<cfg, issued, locked>>
 
 ParseFirst(d) ==
@@ -241,13 +263,14 @@ ParseFirst(d) ==
       st1 == IF s.stop THEN st0 ELSE DoctypeStores(cfg, d, st0, locked)
       ok == ~s.stop /\ ~StaleReaders
       hz == IF run.active THEN "abandoned" ELSE IF LockedScratchHazard(cfg, d, st0, locked) THEN "lockedScratch" ELSE ""
-  IN /\ seqId' = seqId + 1
+  IN /\ d \notin SchemaDocs
+     /\ seqId' = seqId + 1
      /\ tr' = IF ok THEN s.tr ELSE [s.tr EXCEPT !.rd = 0]         \* the janitor is released only when the token is handed out
      /\ run' = IF ok THEN [active |-> TRUE, tok |-> seqId + 1, doc |-> d, rest |-> DocTab(d).body, out |-> s.out, cfg |-> cfg] ELSE NoRun
      /\ issued' = IF ok THEN issued \cup {seqId + 1} ELSE issued        \* the token is filled in only when scanFirst succeeds
      /\ SetStores(st1)
      /\ NewDocument
-     /\ last' = [hzdg |-> DGScratchHazard(cfg, d, pool), op |-> <<"pfirst", d, seqId + 1>>, out |-> IF StaleReaders THEN [how |-> "fatal", verr |-> FALSE, nse |-> 0] ELSE s.out,
+     /\ last' = [vis |-> "", hzdg |-> DGScratchHazard(cfg, d, pool), op |-> <<"pfirst", d, seqId + 1>>, out |-> IF StaleReaders THEN [how |-> "fatal", verr |-> FALSE, nse |-> 0] ELSE s.out,
                  full |-> FALSE, ok |-> ok, rej |-> FALSE, done |-> ~ok, hz |-> hz, doc |-> d, k |-> 0, cfg |-> cfg]
      /\ UNCHANGED <<cfg, locked>>
 
@@ -256,7 +279,7 @@ ParseFirst(d) ==
 ParseNext(tok, all) ==
   /\ tok \in issued
   /\ IF tok # seqId
-     THEN /\ last' = [hzdg |-> FALSE, op |-> <<"pnext", tok, all>>, out |-> Out0, full |-> FALSE, ok |-> FALSE, rej |-> TRUE, done |-> FALSE, hz |-> "", doc |-> 0, k |-> 0, cfg |-> cfg]
+     THEN /\ last' = [vis |-> "", hzdg |-> FALSE, op |-> <<"pnext", tok, all>>, out |-> Out0, full |-> FALSE, ok |-> FALSE, rej |-> TRUE, done |-> FALSE, hz |-> "", doc |-> 0, k |-> 0, cfg |-> cfg]
           /\ UNCHANGED <<cfg, tr, seqId, run, issued, stores, docpool>>           \* isLegalToken fails: Scan_BadPScanToken, nothing touched
      ELSE /\ run.active /\ run.tok = tok                                            \* (calling scanNext after the end is not specified)
           /\ LET s0 == [tr |-> tr, out |-> run.out, cb |-> 0, stop |-> FALSE]
@@ -264,29 +287,30 @@ ParseNext(tok, all) ==
                  fin == s.stop \/ all = 1 \/ Len(run.rest) = 1
              IN /\ tr' = IF fin THEN [s.tr EXCEPT !.rd = 0] ELSE s.tr
                 /\ run' = IF fin THEN NoRun ELSE [run EXCEPT !.rest = Tail(@), !.out = s.out]
-                /\ last' = [hzdg |-> FALSE, op |-> <<"pnext", tok, all>>, out |-> s.out, full |-> fin, ok |-> ~fin, rej |-> FALSE, done |-> fin, hz |-> "",
+                /\ last' = [vis |-> "", hzdg |-> FALSE, op |-> <<"pnext", tok, all>>, out |-> s.out, full |-> fin, ok |-> ~fin, rej |-> FALSE, done |-> fin, hz |-> "",
                             doc |-> run.doc, k |-> 0, cfg |-> run.cfg]
           /\ UNCHANGED <<cfg, seqId, issued, stores, docpool>>
 
 ParseReset(tok) ==
   /\ tok \in issued
   /\ IF tok # seqId
-     THEN /\ last' = [hzdg |-> FALSE, op |-> <<"preset", tok>>, out |-> Out0, full |-> FALSE, ok |-> FALSE, rej |-> TRUE, done |-> FALSE, hz |-> "", doc |-> 0, k |-> 0, cfg |-> cfg]
+     THEN /\ last' = [vis |-> "", hzdg |-> FALSE, op |-> <<"preset", tok>>, out |-> Out0, full |-> FALSE, ok |-> FALSE, rej |-> TRUE, done |-> FALSE, hz |-> "", doc |-> 0, k |-> 0, cfg |-> cfg]
           /\ UNCHANGED <<cfg, tr, seqId, run, issued, stores, docpool>>
      ELSE /\ tr' = [tr EXCEPT !.rd = 0, !.errs = 0]                                \* fReaderMgr.reset(); fErrorCount = 0
           /\ seqId' = seqId + 1
           /\ run' = NoRun
           /\ owned' = IF curDoc # 0 /\ ~curAdopted THEN owned \cup {curDoc} ELSE owned     \* AbstractDOMParser::reset()
           /\ curDoc' = 0 /\ curAdopted' = FALSE
-          /\ last' = [hzdg |-> FALSE, op |-> <<"preset", tok>>, out |-> Out0, full |-> FALSE, ok |-> TRUE, rej |-> FALSE, done |-> FALSE, hz |-> "", doc |-> 0, k |-> 0, cfg |-> cfg]
+          /\ last' = [vis |-> "", hzdg |-> FALSE, op |-> <<"preset", tok>>, out |-> Out0, full |-> FALSE, ok |-> TRUE, rej |-> FALSE, done |-> FALSE, hz |-> "", doc |-> 0, k |-> 0, cfg |-> cfg]
           /\ UNCHANGED <<cfg, issued, stores, adopted, freed, nextDoc>>
 
-Simple(op, c) == last' = [hzdg |-> FALSE, op |-> op, out |-> Out0, full |-> FALSE, ok |-> TRUE, rej |-> FALSE, done |-> FALSE, hz |-> "", doc |-> 0, k |-> 0, cfg |-> c]
+Simple(op, c) == last' = [vis |-> "", hzdg |-> FALSE, op |-> op, out |-> Out0, full |-> FALSE, ok |-> TRUE, rej |-> FALSE, done |-> FALSE, hz |-> "", doc |-> 0, k |-> 0, cfg |-> c]
 
 SetFeature(f, v) ==
   /\ Idle
   /\ cfg' = CASE f = "val" -> [cfg EXCEPT !.val = v]
               [] f = "ns" -> [cfg EXCEPT !.ns = (v = 1)]
+              [] f = "schema" -> [cfg EXCEPT !.schema = (v = 1)]
               [] f = "cache" -> IF v = 1 THEN [cfg EXCEPT !.cache = TRUE, !.use = TRUE] ELSE [cfg EXCEPT !.cache = FALSE]
               [] OTHER -> IF v = 1 \/ ~cfg.cache THEN [cfg EXCEPT !.use = (v = 1)] ELSE cfg
   /\ cfg' # cfg
@@ -300,10 +324,11 @@ LoadGrammar(g, c) ==
   /\ bucket' = IF c = 1 /\ ~locked /\ g \notin pool THEN {} ELSE {g}
   /\ pool' = IF c = 1 /\ ~locked /\ g \notin pool THEN pool \cup {g} ELSE pool
   /\ fromPool' = fromPool
-  /\ tr' = [tr EXCEPT !.ids = {}, !.refs = {}, !.undecl = {}, !.sa = FALSE, !.noDTD = TRUE, !.errs = 0, !.rd = 0, !.g = g, !.gext = TRUE,
-                      !.validate = IF cfg.val = 2 THEN TRUE ELSE @]
-  /\ last' = [hzdg |-> FALSE, op |-> <<"load", g, c>>, out |-> Out0, full |-> FALSE, ok |-> TRUE, rej |-> FALSE, done |-> FALSE,
-              hz |-> IF c = 1 /\ "dtd" \in pool THEN "loadScratch" ELSE "", doc |-> 0, k |-> 0, cfg |-> cfg]
+  /\ tr' = IF g = "X" THEN [tr EXCEPT !.sa = FALSE, !.noDTD = TRUE, !.errs = 0, !.rd = 0, !.validate = IF cfg.val = 2 THEN TRUE ELSE @]
+           ELSE [tr EXCEPT !.ids = {}, !.refs = {}, !.undecl = {}, !.sa = FALSE, !.noDTD = TRUE, !.errs = 0, !.rd = 0, !.g = g, !.gext = TRUE,
+                           !.validate = IF cfg.val = 2 THEN TRUE ELSE @]
+  /\ last' = [vis |-> "", hzdg |-> FALSE, op |-> <<"load", g, c>>, out |-> Out0, full |-> FALSE, ok |-> TRUE, rej |-> FALSE, done |-> FALSE,
+              hz |-> IF g # "X" /\ c = 1 /\ "dtd" \in pool THEN "loadScratch" ELSE "", doc |-> 0, k |-> 0, cfg |-> cfg]
   /\ UNCHANGED <<cfg, seqId, run, issued, locked, docpool>>
 
 ResetCachedGrammarPool ==                       \* GrammarResolver::resetCachedGrammar: XMLGrammarPoolImpl::clear refuses when locked
@@ -341,18 +366,20 @@ DoUnlockPool == Cnt /\ UnlockPool
 DoAdoptDocument == Cnt /\ AdoptDocument
 DoResetDocumentPool == Cnt /\ ResetDocumentPool
 Next == \/ \E d \in DocIds, k \in 0..MaxK : DoParse(d, k)
-        \/ \E d \in DocIds : DoParseFirst(d)
+        \/ Extra /\ \E d \in DocIds : DoParseFirst(d)
         \/ \E t \in issued, all \in {0, 1} : DoParseNext(t, all)
         \/ \E t \in issued : DoParseReset(t)
         \/ \E f \in Feats : \E v \in FeatVals(f) : DoSetFeature(f, v)
         \/ \E g \in Loadable, c \in {0, 1} : DoLoadGrammar(g, c)
-        \/ DoResetCachedGrammarPool \/ DoLockPool \/ DoUnlockPool \/ DoAdoptDocument \/ DoResetDocumentPool
+        \/ Extra /\ (DoResetCachedGrammarPool \/ DoLockPool \/ DoUnlockPool \/ DoAdoptDocument \/ DoResetDocumentPool)
 Spec == Init /\ [][Next]_vars
 
 \* ----------------------------------------------------------------------------------------------------------------------
 \* the listed property
-OutcomeIsFunctionOfInputs == last.full => last.out = Fresh(last.doc, last.cfg, last.k)
-DeclaredVerdict == (last.full /\ last.k = 0) =>
+\* F(doc, cfg, visible grammars)
+F(d, c, k, p) == IF d \in SchemaDocs THEN SchemaOut(d, c, Visible("X", c, p)) ELSE Fresh(d, c, k)
+OutcomeIsFunctionOfInputs == last.full => last.out = F(last.doc, last.cfg, last.k, pool)
+DeclaredVerdict == (last.full /\ last.k = 0 /\ last.doc \notin SchemaDocs) =>
                       LET dv == DeclVerdict(last.doc, last.cfg) IN (last.out.how = "fatal") = dv.fatal /\ last.out.verr = dv.verr
 ResetEstablishesInit == ScanReset(tr, cfg) = [InitTr(cfg) EXCEPT !.rd = tr.rd]
 ReaderStackEmptyWhenIdle == ~run.active => tr.rd = 0
@@ -362,6 +389,6 @@ ReferencedAreCached == fromPool \subseteq pool          \* every grammar referen
 PoolFrozenWhileLocked == [][locked => pool' = pool]_vars
 StaleChangesNothing == [][last'.rej => UNCHANGED <<cfg, tr, seqId, run, issued, stores, docpool>>]_vars
 CacheImpliesUse == cfg.cache => cfg.use
-TypeOK == /\ tr.depth \in 0..8 /\ tr.rd \in 0..4 /\ seqId \in 0..MaxOps /\ pool \subseteq {"dtd", "A", "B"} /\ bucket \subseteq {"dtd", "A", "B"}
+TypeOK == /\ tr.depth \in 0..8 /\ tr.rd \in 0..(MaxOps + 3) /\ seqId \in 0..MaxOps /\ pool \subseteq {"dtd", "A", "B", "X"} /\ bucket \subseteq {"dtd", "A", "B", "X"}
 
 =============================================================================
